@@ -28,7 +28,7 @@ RULE = ("ADMGs with 3-5 nodes (thorough: up to 6; half random, half mutations of
         "Every returned estimand is evaluated exactly on 2-3 random positive SCMs at every assignment. A case is "
         "non-trivial when rule 2 was tested with both outcomes (some exchange made or refused) or ID used lines 4-7.")
 ASSUMPTIONS = [
-    "idc_sound is proved relative to the explicitly named hypothesis `Rule2Sound sep` (rule 2 of the do-calculus for the separation test on SCMs of the class Y0/Spec/Scm.lean) unless Props/C03.lean says otherwise; rule 2 itself is literature (Pearl 1995), not mechanised here",
+    "idc_sound_of_rule2 is proved relative to the explicitly named hypothesis `Rule2Sound sep M G` (rule 2 of the do-calculus for the separation test in the model M: if rule_2_of_do_calculus_applies then conditioning on the condition equals intervening on it); rule 2 itself is literature (Pearl 1995), not mechanised here; the unconditional idc_sound is OPEN; the exact SCM evaluation oracle covers it per input",
     "model class: positive discrete semi-Markovian SCMs with independent root latents (Y0/Spec/Scm.lean)",
     "the order in which the loop over `identification.conditions` (a Python set) meets the conditions is a parameter of the model; theorems hold for every order, the correspondence feeds the observed one",
     "`graph.topological_sort()` is a parameter `topo` of the model (trusted: networkx returns linear extensions)",
@@ -51,7 +51,7 @@ def _corpus():
 def cases(rng: random.Random, tier: str):
     nmax = 5 if tier == "quick" else 6
     out = [dict(c) for c in _corpus()]
-    n = 700 if tier == "quick" else 5000
+    n = 2600 if tier == "quick" else 18000
     for k in range(n):
         g = R.gen_graph(rng, 3, nmax if k % 3 else 4)
         nodes = G.all_nodes(g)
@@ -205,12 +205,15 @@ def finding_key(case, res):
 
 MANIFEST = {
     "text": ("Lean model of idc() (rule-2 test, exchange, final normalisation; separation test = the model of "
-             "are_d_separated from Y0/Model/Sep.lean) tied to the real code by differential correspondence. Theorems: "
-             "see Props/C03.lean (termination/totality of the IDC loop, soundness relative to the named rule-2 "
-             "hypothesis and to id_sound). Every run evaluates each returned estimand exactly on random compatible "
-             "SCMs against P(y,z|do x)/P(z|do x) at every assignment."),
-    "note": ("Trusted: Lean kernel; axioms propext/Classical.choice/Quot.sound; SCM class and `den` (Y0/Spec); rule 2 of "
-             "the do-calculus is an explicit hypothesis of idc_sound where not mechanised; the model is tied to the code "
-             "by sampling."),
+             "are_d_separated from Y0/Model/Sep.lean, F2-fixed) tied to the real code by differential correspondence. "
+             "Theorems: idc_total / idc_total_dsep (valid conditional query => the loop terminates with an estimand or "
+             "'unidentifiable', never another failure; in particular e / sum_Y e cannot divide by Zero: ID estimands are "
+             "zero-free), idc_sound_of_rule2 (the estimand equals P(y,z|do x)/P(z|do x) in every compatible SCM in which "
+             "rule 2 of the do-calculus holds for the separation test — an explicit hypothesis Rule2Sound, not an axiom), "
+             "idc_sound_no_exchange (unconditional when no condition is exchanged); both rest on C01's idAlg_sound. The "
+             "unconditional idc_sound is stated OPEN (rule 2 for SCMs is not mechanised). Every run evaluates each returned "
+             "estimand exactly on random compatible SCMs against P(y,z|do x)/P(z|do x) at every assignment."),
+    "note": ("Trusted: Lean kernel; axioms propext/Classical.choice/Quot.sound; SCM class and `den` (Y0/Spec); rule 2 of the "
+             "do-calculus enters idc_sound_of_rule2 as a named hypothesis; the model is tied to the code by sampling."),
     "technique": "Lean 4 theorems about an executable model + differential correspondence + exact-rational SCM evaluation oracle",
 }
